@@ -122,7 +122,7 @@ class Reject(Exception):
 EM_OPS = (
     ["append:0", "append:1", "append:2", "append:4", "extend:0,1", "extend:4,0", "appendF:2", "appendF:3", "appendF:0",
      "copy", "slice:0:1", "slice:1:", "slice:::-1", "add:EE", "add:ES", "remove_small:0.9", "remove_overlapping:0", "remove_overlapping:0.5",
-     "link+write", "link", "writeD:0", "writeD:1", "merge01", "mut:E0", "mut:X0", "mut:S0", "clear", "copy_min:0.5", "extendS"]
+     "link+write", "link", "writeD:0", "writeD:1", "merge01", "mut:E0", "mut:X0", "mut:S0", "clear", "copy_min:0.5", "extendS", "extendF:0,2", "extendF:1,0", "extendSF"]
 )
 
 
@@ -185,6 +185,42 @@ class EmWorld:
                 self.mE.append(self.mX[i])
                 if self.mdtype is None:
                     self.mdtype = vlayout(self.mX[i])
+        elif name in ("extendF", "extendSF"):
+            # several droplets at once with consistency requested: a list of caller objects / the collection S itself
+            if name == "extendSF":
+                if self.S is None:
+                    raise Reject
+                src, mvals = self.S, list(self.mS)
+            else:
+                idx = [int(k) for k in arg.split(",")]
+                src, mvals = [X[i] for i in idx], [self.mX[i] for i in idx]
+            md, prefix, bad = self.mdtype, [], False
+            for v in mvals:
+                if md is None:
+                    md = vlayout(v)
+                if vlayout(v) != md:
+                    bad = True
+                    break
+                prefix.append(v)
+            if not bad:
+                E.extend(src, force_consistency=True)
+                self.mE.extend(mvals)
+                self.mdtype = md
+                return
+            n0 = len(E)
+            try:
+                E.extend(src, force_consistency=True)
+            except ValueError:
+                # rejecting may keep the compatible members that precede the offending one (member-wise append) or nothing
+                if prefix and len(E) == n0 + len(prefix):
+                    self.mE.extend(prefix)
+                    self.mdtype = md
+                self.partial_reject = True
+                return
+            except Exception as e:  # noqa
+                self.raised_ok = repr(e)
+                return
+            self.raised_ok = "no exception"
         elif name == "extendS":
             if self.S is None:
                 raise Reject
@@ -671,6 +707,9 @@ def step(kind, hist, op, ctx):
         ctx.check("C20.no-raise", False, {"hist": hist, "op": op, "exc": repr(e)}, dict(tags, linked=bool(getattr(w, "mlinked", False))), case={"explorer": kind, "hist": hist + [op]})
         return None
     case = {"explorer": kind, "hist": hist + [op]}
+    if getattr(w, "partial_reject", False):
+        ctx.check("C20.reject", True)
+        ctx.count("bulk-additions-rejected")
     if w.raised_ok is not None:
         ctx.check("C20.reject", w.raised_ok is True, {"outcome": w.raised_ok}, tags, case=case)
         ctx.check("C20.reject", repr(w.model()) == before_model and contents_match(w), {"what": "rejected operation changed a collection"}, tags, case=case)
@@ -762,4 +801,4 @@ def run_case(case, ctx):
 
 
 def expected_positive(tier):
-    return ["C20.content", "C20.aligned", "C20.no-alias", "C20.reject", "C20.summary", "C20.no-raise"]
+    return ["C20.content", "C20.aligned", "C20.no-alias", "C20.reject", "C20.summary", "C20.no-raise", "bulk-additions-rejected"]
